@@ -378,6 +378,20 @@ def _doc_violation(html, info):
         if 'out' in r:
             widths = r['out'][1]
             break
+    if any(t.style['border_collapse'] == 'collapse' for _, _, t in frags):
+        # what reaches the PDF is what draw_collapsed_borders paints for the fragments, once each
+        painted = tables.pipeline_border_lines(document)
+        direct = []
+        for _, _, t in frags:
+            if t.style['border_collapse'] == 'collapse':
+                calls, err = tables.painted_segments(t)
+                if err:
+                    return f'draw_collapsed_borders raised {err}'
+                direct.extend((style, w, x1, y1, x2, y2) for style, w, _, _, x1, y1, x2, y2 in calls)
+        if painted != direct:
+            return (f'collapsed borders: writing the PDF painted {len(painted)} border lines, the collapsed '
+                    f'borders of the {len(frags)} table fragment(s) are {len(direct)} lines'
+                    + ('' if len(painted) != len(direct) else ' (same number, different lines or order)'))
     for (_, _, t), frag_rows in zip(frags, all_rows):
         what = tables.geometry_violation(t, widths) or tables.final_columns_violation(t, widths)
         if what:
@@ -392,6 +406,10 @@ def _doc_violation(html, info):
                 t, header_declared=bool(info['n_head']) if info else '<thead' in html)
             if what:
                 return what
+    if info and info.get('kinds'):
+        what = tables.groups_violation(document, info)
+        if what:
+            return what
     if info:
         pag = tables.pagination_case(document, info)
         if pag is not None:
@@ -409,7 +427,8 @@ class C10(PropCheck):
     extractors = (border_styles.generate,)
     modules = ('WpModel.Props.C10', 'WpModel.Props.C10Pages', 'WpModel.Props.C10Pref', 'WpModel.Props.C10Heights',
                'WpModel.Props.C10Split', 'WpModel.Props.C10CellWidth', 'WpModel.Props.C10Draw',
-               'WpModel.Props.C10SplitBorders', 'WpModel.Witness.C10')
+               'WpModel.Props.C10SplitBorders', 'WpModel.Props.C10Groups', 'WpModel.Props.C10Painted',
+               'WpModel.Witness.C10')
     trusted_base = (
         'modelled, not verified: fixed_table_layout, auto_table_layout (given the preferred-width tuple), '
         'distribute_excess_width, the column/cell placement of table_layout, the cell skip-stack bookkeeping of '
@@ -442,13 +461,14 @@ class C10(PropCheck):
         C10.skip_acc = []
         C10.draw_acc = []
         C10.split_acc = []
-        n_docs = run.n(360, 3600)
+        n_docs = run.n(420, 4200)
         render_errors = []
         predict, predict_notes = [], {}
         for i in range(n_docs):
-            flavour = ('wide', 'paged', 'atomic', 'wide', 'paged', 'split')[i % 6]
+            flavour = ('wide', 'paged', 'atomic', 'wide', 'paged', 'split', 'groups')[i % 7]
             html, info = (tables.g_atomic_doc(rng) if flavour == 'atomic' else
-                          tables.g_split_doc(rng) if flavour == 'split' else tables.g_doc(rng, flavour))
+                          tables.g_split_doc(rng) if flavour == 'split' else
+                          tables.g_groups_doc(rng) if flavour == 'groups' else tables.g_doc(rng, flavour))
             rec.current = (html, info)
             rec.layouts.clear()
             doc_meta = {'html': html, 'info': info}
@@ -485,11 +505,14 @@ class C10(PropCheck):
         split = pag is not None and 'split-row' in pag[1]
         prev_last = None
         all_rows = [tables.fragment_rows(t, info)[2] for _, _, t in frags]
+        pipeline = tables.pipeline_border_lines(document) if info['collapse'] else None
         for k, (_, _, t) in enumerate(frags):
             args, out = tables.geom_case(t)
             geom.append((sx.line('geom', *args), out, doc_meta, kind))
             if info['collapse']:
-                dargs, dout, dtags = tables.draw_borders_case(t)
+                dargs, dout, dtags = tables.draw_borders_case(t, pipeline)
+                if k == len(frags) - 1 and pipeline:
+                    dout = f'pipeline-differs: {len(pipeline)} more lines painted after the last fragment'
                 C10.draw_acc.append((sx.line('drawborders', *dargs), dout, doc_meta, kind + dtags))
             if widths is not None:
                 C10.final_acc.append((sx.line('finalcols', not info['rtl'], list(widths), k),
@@ -585,6 +608,16 @@ class C10(PropCheck):
             [(r['line'], r['out'], docmeta(r), r['kinds']) for r in rec.cell_widths],
             nontrivial=lambda line: 'floated' in line or 'absolute' in line)
         feed(run.section(
+            'doc-group-order', 'every call of build.wrap_table while building the box trees of the generated '
+            'documents (several thead / tbody / tfoot in any order, by element or by display): which input row '
+            'group is the header, which the footer, which are body groups and in which order they end up in '
+            'table.children, against Model/TableGroupOrder (groups_once, header_is_first); non-trivial = more '
+            'than one header or more than one footer group'),
+            [(sx.line('grouporder', r['kinds']), tables.group_order_out(r['out']), docmeta(r),
+              [f'headers{min(r["kinds"].count("header"), 2)}', f'footers{min(r["kinds"].count("footer"), 2)}'])
+             for r in rec.group_orders],
+            nontrivial=lambda line: line.count('header') > 1 or line.count('footer') > 1)
+        feed(run.section(
             'doc-wrapper', 'calls of table_wrapper_width recorded while rendering: which algorithm ran (fixed iff '
             'table-layout:fixed and width not auto), the used table width it was given (percentage and '
             'box-sizing resolved), wrapper.width = border box of the table'),
@@ -599,7 +632,8 @@ class C10(PropCheck):
         feed(run.section(
             'doc-painted-borders', 'every fragment of every border-collapse table: the lines the real '
             'draw_collapsed_borders paints (draw_line calls recorded on a stub stream: style, width, colour, '
-            'side, end points, in painting order) against the model, given the border grids of the whole table '
+            'side, end points, in painting order; the same lines, in the same order, must be the ones painted '
+            'while the document is really written to PDF, draw_line recorded during write_pdf()) against the model, given the border grids of the whole table '
             '(collapse_table_borders, compared in doc-borders), the fragment\'s row / column geometry, its '
             'repeated header / footer rows, skipped_rows and the skip_cell_border flags; non-trivial = a '
             'continuation fragment or a repeated header / footer'), list(C10.draw_acc),
@@ -641,7 +675,8 @@ class C10(PropCheck):
             'split_cells, the border_top_width the call leaves on the table (half the widest border of the '
             'line above the resumed row, unless a header is repeated or cells are split) and the '
             'skip_cell_border_top / bottom flags; and for the first body row of every fragment where its cells '
-            'start (below the repeated header\'s bottom border when the row continues a cut row); against '
+            'start (below the repeated header\'s bottom border when the row continues a cut row) and that they '
+            'end at the bottom of the row; against '
             'Model/TableSplitBorders; non-trivial = a continuation'),
             list(C10.split_acc), nontrivial=lambda line: not line.startswith('splitborders none') and ' false (' not in line)
         feed(run.section(
@@ -666,8 +701,18 @@ class C10(PropCheck):
             'regression-replay', 'the documents of the repaired findings rendered on the real code, the recorded '
             'call compared with the model: fixed-negative-column (5d962d2: fixed_table_layout called by the '
             'render, no negative column), rtl-columns-reversed-on-relayout (d13f52d: every fragment of the rtl '
-            'table whose bottom border overflows the page shows finalColumns of the computed widths)')
+            'table whose bottom border overflows the page shows finalColumns of the computed widths), '
+            'collapsed-footer-line-off-by-one (4d1447f) and collapsed-dropped-header-shifts-borders (02afb22): '
+            'every fragment of the two documents painted by the real draw_collapsed_borders against the model')
         docs.quiet()
+        for name, html, replay_fn in (('collapsed-footer-line-off-by-one', FOOTER_LINE_HTML, footer_line_replay),
+                                      ('collapsed-dropped-header-shifts-borders', DROPPED_HEADER_HTML,
+                                       dropped_header_replay)):
+            back = replay_fn()
+            for _, _, t in tables.table_fragments(docs.render(html)):
+                dargs, dout, _ = tables.draw_borders_case(t)
+                sec.add(sx.line('drawborders', *dargs), dout if not back else f'regressed:{name}',
+                        meta={'html': html, 'info': None}, tags=[name])
         for name, html, replay_fn in (('fixed-negative-column', NEGATIVE_COLUMN_HTML, negative_column_replay),
                                       ('rtl-columns-reversed-on-relayout', RTL_REVERSED_HTML, rtl_reversed_replay)):
             rec = tables.Recorder()
@@ -719,7 +764,7 @@ class C10(PropCheck):
         if frags:
             dargs, dout, _ = tables.draw_borders_case(frags[0][2])
             sec.add(sx.line('drawborders', *dargs), dout, meta={'html': FOOTER_LINE_HTML, 'info': None},
-                    tags=['footer-line-off-by-one' if ' 20 ' in dout else 'footer-line-repaired'])
+                    tags=['footer-line-off-by-one' if ' 20 10 20' in dout else 'footer-line-repaired'])
 
     # -- table_and_columns_preferred_widths on mock tables (intrinsic widths of single boxes stubbed)
     def preferred_direct(self, run):
@@ -932,7 +977,7 @@ class C10(PropCheck):
                 break
         i = 0
         while time.time() - start < (240 if run.thorough else 60) and len(found) < 3:
-            html, info = (tables.g_split_doc(rng) if i % 3 == 2 else
+            html, info = (tables.g_split_doc(rng) if i % 4 == 2 else tables.g_groups_doc(rng) if i % 4 == 3 else
                           tables.g_doc(rng, 'paged' if i % 2 else 'wide'))
             i += 1
             run.search_stats['evaluations'] += 1
@@ -950,8 +995,9 @@ class C10(PropCheck):
         # fixed-negative-column (5d962d2) and rtl-columns-reversed-on-relayout (d13f52d) are repaired:
         # their replay functions are regression cases of the corpus-first section `regression-replay`
         return {'auto-spacing-ignores-spanned-only-column': spanned_only_replay,
-                'collapsed-footer-line-off-by-one': footer_line_replay,
-                'collapsed-dropped-header-shifts-borders': dropped_header_replay,
+                # collapsed-footer-line-off-by-one (4d1447f) and collapsed-dropped-header-shifts-borders
+                # (02afb22) are repaired: regression cases of `regression-replay`
+                'collapsed-dropped-header-top-border': dropped_header_top_replay,
                 'collapsed-rtl-clipped-grid': rtl_clipped_replay}
 
     def replay(self, data):
@@ -1063,7 +1109,7 @@ FOOTER_LINE_HTML = (
 
 
 def footer_line_replay():
-    """Known finding collapsed-footer-line-off-by-one: on the first page (rows a, b, c and the repeated
+    """Former finding collapsed-footer-line-off-by-one (repaired by 4d1447f; regression case): on the first page (rows a, b, c and the repeated
     footer) draw_collapsed_borders paints the 4px red top border of row e (next page) between b and c,
     whose cells have used border widths 0."""
     docs.quiet()
@@ -1082,8 +1128,31 @@ DROPPED_HEADER_HTML = (
     '<tr style="border-top:4px solid red"><td>b</td></tr><tr><td>c</td></tr></tbody></table>')
 
 
+def dropped_header_top_replay():
+    """Known finding collapsed-dropped-header-top-border: the thead does not fit and is dropped, but
+    `has_header` (declared) keeps the header's top border (0) reserved above every fragment: the 4px top
+    line of the first body row is painted half outside the table box."""
+    docs.quiet()
+    document = docs.render(DROPPED_HEADER_TOP_HTML)
+    for _, _, t in tables.table_fragments(document):
+        if t.children and t.children[0].is_header:
+            return False
+        what = tables.painted_violation(t, known=False, header_declared=True)
+        if what and 'the layout reserved' in what:
+            return True
+    return False
+
+
+DROPPED_HEADER_TOP_HTML = (
+    '<style>@page{size:200px 60px;margin:0}body{margin:0;font:10px weasyprint;line-height:10px}'
+    'table{border-collapse:collapse}td{padding:0;border:4px solid red}'
+    'thead td{border:0 solid black;height:55px}</style>'
+    '<table><thead><tr><td>h</td></tr></thead><tbody>' +
+    ''.join(f'<tr><td>{c}</td></tr>' for c in 'abcdefg') + '</tbody></table>')
+
+
 def dropped_header_replay():
-    """Known finding collapsed-dropped-header-shifts-borders: the header does not fit and is dropped, the
+    """Former finding collapsed-dropped-header-shifts-borders (repaired by 02afb22; regression case): the header does not fit and is dropped, the
     first fragment shows a, b, c; the red line above b is painted one row too low (under b)."""
     docs.quiet()
     document = docs.render(DROPPED_HEADER_HTML)
@@ -1193,9 +1262,8 @@ MANIFEST = {
             'auto model; only its spacing count and the min-content clause are tied at document level), cell content '
             'layout and row heights (inputs of the row model), the pagination decisions themselves (checked, not '
             'predicted). Partial: auto_ge_min under the hypothesis that the 1e-9 tolerance decides nothing '
-            '(Witness.C10.auto_band_below_min); painted_body_lines_partial (finding '
-            'collapsed-footer-line-off-by-one: Witness.C10.footer_line_off_by_one); painted_unsplit needs the '
-            'fragment to show all rows (finding collapsed-dropped-header-shifts-borders); an rtl fragment whose '
+            '(Witness.C10.auto_band_below_min); the top border reserved above a fragment is the dropped header\'s '
+            '(finding collapsed-dropped-header-top-border); an rtl fragment whose '
             'grid was clipped by the fixed layout is painted from the wrong grid columns (finding '
             'collapsed-rtl-clipped-grid); document-level '
             'width sum fails for columns without originating cell (finding auto-spacing-ignores-spanned-only-column).',
